@@ -443,8 +443,18 @@ def replay(ctx, payload):
     return 1 if why else 0
 
 
-LEVEL_TEXT = ''
-LEVEL_NOTE = ''
+LEVEL_TEXT = ('Machine-checked proof (Lean 4) by structural induction over the value tree, for mappings of any depth and '
+              'width: maskdict_spec (the result satisfies the inductive relation Masked: same keys in the same order at '
+              'every level, mapping values recursed whatever their key, a non-mapping value under a str key containing a '
+              'generated sanitize key case-insensitively replaced by the mask, other strings passed through the C04 model '
+              'of mask_password, everything else the same object), maskdict_keys_preserved, '
+              'maskdict_non_mapping_typeerror (iff). All full strength over the model (distinct keys per mapping is the '
+              'representation invariant of a Python dict). Non-mutation is true of the model by construction and is '
+              'checked on the code by deep before/after snapshots (identity and content of everything reachable, dict and '
+              'non-dict Mapping types) in the correspondence and the search.')
+LEVEL_NOTE = ('Trusted: Lean kernel; the hand model OsloModel/MaskDict.lean and the abstraction of Python values to '
+              'str / mapping / opaque object done by the harness (isinstance(.., Mapping), dict order); mask_password '
+              'itself is the C04 model. Non-mutation of the real code is a tested, not a proved, obligation.')
 TECHNIQUE = 'Lean 4 theorems by structural induction over the value tree + model/implementation correspondence'
 DESIGN_REF = 'DESIGN.md section 5, C08'
 
